@@ -15,7 +15,7 @@ META = {
     "rule": "instance = (3 matching-scale tokens, origin (scale,nf), 1-3 targets); distinct by the token tuple; non-trivial = some target path has >= 2 segments",
 }
 
-CLIFF = "target-on-wall"
+CLIFF = "intermediate-only"
 
 
 def _solve(args):
